@@ -163,6 +163,20 @@ def check_owned(ctx, cfg, rule="C11.E"):
             Nn = a.tenv.length({"k": "param", "n": g[2]["n"]})
             return [("poly", "==", NM - Nn * _P.atom(("div", NM, Nn)))]
         n += provenance_rule(ctx, cfg, key, lambda a, S, N: [[(a.tenv.size(a.local_ty(1)), ("arg", 1), _P.const(0))]], pre=pre, rule=rule)
+        if mode == "le":
+            # .. and OUTSIDE that domain the by-value form does not return at all: the lengths are related by a rounding-down division only
+            # (`Quot<NM, N>`), so a 7-array regroups into three pairs as far as the types go - what refuses it is the size comparison in front of the
+            # reinterpretation. Every return of the fully expanded, tree-shaped body must carry size_of::<Self>() == size_of::<Output>() in its
+            # path facts; a helper that moves the bytes without the comparison returns a truncated array and leaks the tail (S247).
+            b_ = ctx.db(cfg).get(key)
+            if b_ is not None:
+                from ..poly import prove as _prove
+                a2 = ctx.analysis_inl(cfg, key, split=True, force="*", tag="c11dom")
+                sz_in = a2.tenv.size(a2.local_ty(1))
+                sz_out = a2.tenv.size(a2.local_ty(0))
+                bad_ = [r for r in a2.returns if not _prove(("==", sz_in - sz_out), a2.poly_facts(r["facts"]))]
+                ctx.ob(rule, key + "#domain", bool(a2.returns) and not bad_, "every return of by-value unflatten is reached only under size_of::<Self>() == size_of::<Output>() (%r == %r): %s" % (
+                    sz_in, sz_out, not bad_), at=b_["at"], cfg=cfg)
     return n
 
 
